@@ -14,7 +14,7 @@ demo=verifdemo$n
 log=/tmp/validate-$prop-$n.log; : > $log
 # demos are Go tests, or a main package to run when the directory holds no test file
 demo_cmd() {
-  if ls $demo/*_test.go >/dev/null 2>&1; then go test -count=1 ./$demo/...; else go run ./$demo; fi
+  if find $demo -name "*_test.go" | grep -q .; then go test -count=1 ./$demo/...; else go run ./$demo; fi
 }
 # without the change: demo passes
 demo_cmd >> $log 2>&1; without=$?
